@@ -59,7 +59,7 @@ def _dup_steer_conc(i):
 
 
 EXCLUSIONS = {"well_item_duplicating_STRT_STOP_STEP_NULL": (_dup_steer_sym, _dup_steer_conc)}
-NUMERIC = [("NI", "u", 7, "an int"), ("NF", "", 2.5, "a float"), ("NZ", "m", 0.0, "zero"), ("NE", "k", "", "empty with unit")]
+NUMERIC = [("NI", "u", 7, "an int"), ("NF", "", 2.5, "a float"), ("NZ", "m", 0.0, "zero"), ("NE", "k", "", "empty with unit"), ("TX", "", "12,5W", "text with a comma")]
 
 
 def tasks(tier):
